@@ -6,7 +6,24 @@ from vf.world import ReaderBlocked
 LIMITS_EXTRA = (None, 0, 1, 2)
 
 
+class ReadFailed(Exception):
+    '''A public read path raised: the index is unreadable (reported as a violation).'''
+
+
 def observe(w, ref_full, *, isolated=False, what=('utxo', 'hist')):
+    try:
+        return _observe(w, ref_full, isolated=isolated, what=what)
+    except (ReaderBlocked, ReadFailed):
+        raise
+    except RuntimeError as e:
+        if 'coroutine blocked' in str(e):
+            raise ReaderBlocked(str(e))
+        raise ReadFailed(repr(e))
+    except Exception as e:      # noqa
+        raise ReadFailed(repr(e))
+
+
+def _observe(w, ref_full, *, isolated=False, what=('utxo', 'hist')):
     '''Read everything the properties talk about from world w.  ref_full (a RefIndex of the
     longest chain in play) only supplies the universe of scripts / outpoints to ask about.'''
     db = w.db
